@@ -174,6 +174,16 @@ func c13(tier string) []*explore.Scenario {
 	}
 	out = append(out, c01FailedWriteOlder("C13", 1))
 	out = append(out, c13DegenerateMetadata(false), c13DegenerateMetadata(true))
+	// the connection's read side ends with io.EOF itself (what a socket or pipe reports), a wrapped one, a context
+	// error: no call may read that as "the stream ended successfully" - no envelope said so
+	for _, ev := range []string{"eof", "wrapped-eof", "unexpected-eof", "canceled", "deadline"} {
+		for _, load := range []string{"1s", "1u1s"} {
+			for _, k := range []int{0, 1, 2} {
+				out = append(out, c09OneEP("C13", load, k, false, 64, 1, ev))
+			}
+		}
+		out = append(out, c09OneEP("C13", "1s", 1, true, 0, 1, ev))
+	}
 	out = append(out, failedCallAbandoned("C13", "recv-into-non-message", 1), failedCallAbandoned("C13", "send-unencodable", 1), failedCallAbandoned("C13", "send-non-message", 1))
 	// back-to-back deliveries
 	for _, mix := range []string{"uu", "us"} {
